@@ -1302,7 +1302,7 @@ pub fn c10_special(rec: &mut Rec) {
 
 /// Every point with coordinates in {0, 1, rho} (3^nv points, nv <= 4) for a dense polynomial of a multilinear /
 /// multivariate trait scheme.  `prop == "C01"`: the honest opening at the point is accepted for the true value.
-/// `prop == "C02"`: the same honest proof does not prove the value the polynomial takes at a REARRANGED point
+/// `prop == "C02"` / `"C03"`: the same honest proof does not prove the value the polynomial takes at a REARRANGED point
 /// (coordinates reversed, reversed inside each half, halves exchanged, 0 and 1 exchanged) when that value differs.
 pub fn hypercube<S: crate::sch::Sch<Pt = Vec<<S as crate::sch::Sch>::F>>>(rec: &mut Rec, prop: &str, nvs: &[usize]) {
     use crate::sch::*;
@@ -1390,7 +1390,7 @@ pub fn hypercube<S: crate::sch::Sch<Pt = Vec<<S as crate::sch::Sch>::F>>>(rec: &
                         rec.class(&format!("false-{}", d.class()));
                         rec.obs(&format!("{}|hypercube|{}|{}|{}", S::NAME, nv, vn, d.class()));
                         if d.accepted() {
-                            rec.violation(&format!("C02/{}/check/value-of-rearranged-point", S::NAME), &id, format!("the honest proof at the point {} proves the value the polynomial takes at the {} point", name, vn));
+                            rec.violation(&format!("{}/{}/check/value-of-rearranged-point", prop, S::NAME), &id, format!("the honest proof at the point {} proves the value the polynomial takes at the {} point", name, vn));
                         }
                     }
                 }
